@@ -185,9 +185,15 @@ def audit_kernels(proof):
 
 
 def leanchecker(pid):
-    p = subprocess.run(["lake", "env", "leanchecker", "CmrProofs.Props." + pid], cwd=LEAN, stdout=subprocess.PIPE,
-                       stderr=subprocess.STDOUT, text=True)
-    return p.returncode == 0, p.stdout[-2000:]
+    """independent re-check of the compiled property module and of its extension modules (one module per call)"""
+    out = []
+    for mod in (prop_modules(pid) or [pid]):
+        p = subprocess.run(["lake", "env", "leanchecker", "CmrProofs.Props." + mod], cwd=LEAN, stdout=subprocess.PIPE,
+                           stderr=subprocess.STDOUT, text=True)
+        if p.returncode != 0:
+            return False, mod + ": " + p.stdout[-2000:]
+        out.append(mod)
+    return True, "re-checked " + " ".join(out)
 
 
 # ----------------------------------------------------------------------------------------------------------------
